@@ -5,6 +5,7 @@ package c05
 import (
 	"fmt"
 	"strconv"
+	"strings"
 
 	"github.com/jsightapi/jsight-schema-go-library/formats/json"
 
@@ -18,6 +19,16 @@ type pstate struct {
 	succ    []string // successor keys, by symbol index
 	libDead bool
 	depth   int
+}
+
+// libDepth extracts the nesting depth of the real scanner from its control key
+// (the second field lists the lexeme types on its stack).
+func libDepth(key string) int {
+	parts := strings.SplitN(key, "|", 3)
+	if len(parts) < 2 {
+		return 0
+	}
+	return strings.Count(parts[1], ",")
 }
 
 func feedAll(hist []byte, trailing bool) (*json.VerifStepper, bool, *jsonpda.PDA) {
@@ -85,6 +96,9 @@ func productSearch(c *ev.Ctx, trailing bool, maxDepth int) {
 	visit(nil)
 	queue := []*pstate{root}
 	for len(queue) > 0 {
+		if c.Expired() {
+			break
+		}
 		s := queue[0]
 		queue = queue[1:]
 		_, sdead, sp := feedAll(s.hist, trailing)
@@ -114,6 +128,18 @@ func productSearch(c *ev.Ctx, trailing bool, maxDepth int) {
 			c.Inc("transitions")
 			if depths[i] > maxDepth {
 				c.Inc("product_depth_cut_" + mode)
+				continue
+			}
+			// The reference bounds the nesting only while it is alive: bound the
+			// real scanner's own stack as well (2 events per nesting level + literal),
+			// otherwise a scanner that stays live after the reference died would
+			// make the product infinite.
+			if !deads[i] && libDepth(keys[i]) > 2*maxDepth+3 {
+				c.Inc("product_lib_depth_cut_" + mode)
+				continue
+			}
+			if len(seen) > 300000 {
+				c.Cap("more than 300000 product states")
 				continue
 			}
 			if len(s.hist) > 64 {
